@@ -4,10 +4,66 @@ manifest stays valid and current)."""
 import json, subprocess
 
 CHECKS = {
- # id: (category, technique, level text, level note, design_ref)
- "C03": ("exploration", "runtime monitor: differential oracle over real ManageDeployment outputs (function-level engine, repeated for map order)",
-         "Every multiset of the seven node classes for N<=4 (quick) / N<=5 (thorough) and seeded multisets up to N=12, times the maxUnavailable/maxPodSchedulerFailure lattice, each executed 12/24 times through the real ManageDeployment at a virtual instant; the budget, cap and unavailable-first rules are judged by an independent oracle. Held = no rule fired on the executions observed.",
-         "Trusted: simapi double, the oracle's reading of 'available' (Ready) and of the stuck-node tolerance; map-order coverage is sampled by repetition.", "4/C03"),
+ "C01": ("exploration", "runtime monitors over invocation records (simulated API server, real reconcilers) + differential oracle on FilterAndMapPodsByNode",
+   "Seeded hostile histories (duplicate pods by hand, Failed/Unknown/terminating/unscheduled pods, node taint/relabel/removal, canaries) in arbitrary fair reconcile orders; every pod create/delete of every replica-set sync is judged against the cluster state that sync read (eligibility, node free, once per node, duplicate resolution, ineligible clean-up, Unknown untouched); plus 20k generated layouts through the real FilterAndMapPodsByNode and a CheckNodeFitness differential. Held = no rule fired on the invocations observed, antecedent floors reached.",
+   T+"interleavings are sampled (schedule S; thorough adds -race concurrent runs), not enumerated.", "4/C01"),
+ "C02": ("exploration", "bounded-progress monitor: convergence phase after generated histories, fixpoint predicate checked at quiescence",
+   "Liveness restated as bounded progress: after a seeded hostile history (template edits, holds, node churn, misbehaving kubelet, partial rollouts, old-DaemonSet start state) the actors stop, the cooperative kubelet runs and a fixpoint (one Ready live-template pod per eligible node, nothing else, no further pod/RS writes for three rounds) must be reached within 12+4*N*(1+edits) rounds.",
+   T+"an unbounded 'eventually' is not decidable by observation; canaries whose replicas cannot be satisfied by the valid nodes are excluded (premise), counted in evidence.", "4/C02"),
+ "C03": ("exploration", "differential oracle over real ManageDeployment outputs (exhaustive small multisets, repeated for map order) + budget monitor on every active-role sync of the simulator",
+   "Every multiset of the seven node classes for N<=4 (quick) / N<=5 (thorough) and seeded multisets up to N=12, times the maxUnavailable/maxPodSchedulerFailure lattice, each executed 12/24 times through the real ManageDeployment at a virtual instant; budget, cap and unavailable-first judged by an independent oracle.",
+   T+"the oracle's reading of 'available' (Ready) and of the stuck-node tolerance; map-order coverage is sampled by repetition.", "4/C03"),
+ "C04": ("exploration", "runtime monitors over invocation records during generated canary histories",
+   "Canary-heavy seeded histories (second template change during a canary, replicas as number/percent, node churn, pause/unpause/fail/validate commands, all reconcile orders): every pod create by a non-active up-to-date replica set must target a node of status.canary.nodes as read; the active replica set must not create/delete on canary nodes; canary list growth bounded by the resolved replicas; canary label gone at the post-promotion fixpoint.",
+   T+"role is derived from the EDS status the sync read.", "4/C04"),
+ "C05": ("exploration", "exhaustive lattice (10368 prepared stores, one real EDS Reconcile each at an exact virtual instant) + promotion monitor on every EDS reconcile of the simulator",
+   "The full product of the quantifier (strategy x age vs duration x noRestartsDuration x last restart x pause source x unpause x canary-valid x failed x active present) is enumerated; a switch of status.activeReplicaSet is judged against promotionAllowed (must / must-not / either at the stated equalities).",
+   T+"the equality points (age = duration, since-restart = noRestartsDuration) are not judged.", "4/C05"),
+ "C06": ("exploration", "differential oracle (canaryVerdict) over the real manageCanaryStatus via verif shim; second call for stickiness",
+   "200k (quick) / 2.4M (thorough) seeded canary situations, boundary-complete per dimension (restart counts at/around both thresholds, all 11 cannot-start reasons, ContainerCreating, unrelated reasons, start age before/at/after maxSlowStartDuration, spans and ages at/around their limits, enabled flags, previous conditions, annotations).",
+   T+"Paused is don't-care once failed ('otherwise' in the statement).", "4/C06"),
+ "C07": ("exploration", "runtime monitors on EDS reconciles that read a Canary-Failed replica set + rollback fixpoint and retention phase; fault points are covered by C11's failure-and-rollback scenario",
+   "Seeded histories ending in failure (restart storms, kubectl-eds canary fail, while paused or not, before/after the duration elapsed): the rollback writes (spec restored, status.canary cleared, active unchanged) are judged on the invocation, retention (>= 2 min, zero counters) on every delete of a failed replica set, nodes restored and failed RS collected at the convergence fixpoint.",
+   T+"a replica set both failed and explicitly validated is an 'either' corner (C05 allows promotion).", "4/C07"),
+ "C08": ("exploration", "runtime monitors over invocation records with pause/freeze/canary-pause toggling + status.state check on every EDS status write",
+   "Hold-heavy seeded histories (annotations toggled directly and through the real kubectl-eds bodies, new nodes joining): an active-role sync that read rolling-update-paused=true issues no update deletion, with rollout-frozen=true neither creates nor update-deletes; a canary-role sync that read a paused canary creates nothing; state equals the documented function; resumption is part of the convergence phase.",
+   T+"'as read' = annotations on the EDS object returned to that sync.", "4/C08"),
+ "C09": ("exploration", "differential oracle (rampBound) over calculateMaxCreation via shim and over ManageDeployment's create decisions + spacing monitor in the simulator",
+   "Product of elapsed x interval x additive increase x maxParallelPodCreation x nodes at exact instants; creates of a sync bounded by rampBound measured from the Active condition of the status it was given; spacing of acting syncs >= reconcileFrequency-1s judged on every simulated history.",
+   T+"non-positive intervals belong to C16.", "4/C09"),
+ "C10": ("exploration", "differential oracle over CreatePodFromDaemonSetReplicaSet + compareCurrentPodWithNewPod round trip and single perturbations",
+   "20k (quick) / 200k (thorough) seeded (template, node, setting, mode) tuples: pinning in every affinity term, owner, labels, hash, default tolerations, resources precedence, wire round trip judged up to date, every single perturbation judged outdated.",
+   T+"a malformed annotation is expected to fall through to setting/template; its being reported is not part of the statement.", "4/C10"),
+ "C11": ("fault_enumeration", "fault injection at the client seam: every API call index x {reject, lost reply, stop before, stop after}; safety monitors at every step, final abstract state compared with the failure-free run",
+   "Nine corpus scenarios; the failure-free run is recorded, then re-run once per (call index, fault kind); stop faults void the rest of the invocation and rebuild all reconcilers with empty in-memory state; thorough adds 20k seeded fault pairs.",
+   T+"process stop is emulated by voiding later calls of the invocation rather than killing goroutines.", "4/C11"),
+ "C12": ("exploration", "runtime monitors: every write of every invocation must target an object of the EDS being reconciled; foreign objects never counted/adopted",
+   "Two or three ExtendedDaemonSets (same/different names and namespaces), unrelated pods and DaemonSets with overlapping labels, rollouts and canaries in all interleavings; ownership judged per write from the invocation's own reads.",
+   T+"ownership = namespace + name label / owner reference as stated.", "4/C12"),
+ "C13": ("exploration", "runtime monitors on replica-set creates/deletes and PodTemplate reconciles during edit-heavy histories",
+   "Edit sequences over {A,B,C,+selector variants} incl. A-B-A and edits during canaries, all reconcile orders: no second replica set for a template while one exists, created RS faithful to spec.template with a consistent hash chain down to pods, never delete the active/up-to-date RS, delete only with zero counters as read, PodTemplate equals spec.template and carries the RS hash.",
+   T+"'active' for the never-delete rule is the replica set active after the reconcile's own decision.", "4/C13"),
+ "C14": ("exploration", "differential oracle (expectedEDSStatus) on prepared stores + on every EDS status write of the simulator + counts at fixpoints",
+   "16k prepared stores (up to three replica sets, roles, conditions, annotations) and every simulated EDS status write compared with the documented status function; 0<=available<=ready<=current<=desired on active/canary RS status writes; at quiescence desired/current/ready/available/upToDate equal the counts over nodes and pods.",
+   T+"status.reason is not judged.", "4/C14"),
+ "C15": ("exploration", "differential oracle over canary node selection through the real EDS Reconcile, with node churn and a second Reconcile",
+   "9.6k (quick) / 96k (thorough) seeded node populations x replicas (int, percent) x selector x anti-affinity keys x previous lists; distinct, valid, stable, count max/min, error only when too few valid nodes, least-restarts preference, spreading.",
+   T+"one open known finding (stale canary nodes) is listed in known_findings.json.", "4/C15"),
+ "C16": ("exploration", "exhaustive product lattices through Default/IsDefaulted/Validate + seeded specs driven through all reconcilers; worker-process crash attribution",
+   "127k lattice points (full product of the canary key fields and of the rolling-update fields) and 600 (quick) / 6000 (thorough) life-cycle scenarios (deploy, template change, canary, promotion) with hostile specs; any panic, non-idempotence, lost user value or accepted-but-must-reject spec is a violation.",
+   T+"coverage-guided fuzzing of the serialized spec was planned for the thorough tier and is not built (see DESIGN.md 9).", "4/C16"),
+ "C17": ("exploration", "Go race detector (-race build, halt_on_error=0, report blocks counted and de-duplicated) + conservation-of-errors monitor with unique error ids + condition reflection on real syncs",
+   "Helper batches 2..64 x failure plans with jitter at the client seam; real replica-set syncs (active and canary role) with failing pod calls; the four reconcilers, kubelet and user concurrently on one store with 0/10/100% failing pod calls.",
+   T+"the Go race detector only sees the interleavings that occur.", "4/C17"),
+ "C18": ("exploration", "differential oracle over the real setting reconciler in every reconcile order of each population + observation of the settings a replica-set sync attaches",
+   "1.5k (quick) / 12k (thorough) populations of <=4 settings x <=4 nodes, all <=24 orders, two passes: mutual exclusion, malformed in error with text, lone well-formed valid, only valid settings influence created pods.",
+   T+"settings of other namespaces never conflict.", "4/C18"),
+ "C19": ("exploration", "whole-store diff monitor around the real kubectl-eds command bodies on every reachable state + interpretation by following reconciles",
+   "Eight reachable states x command sequences of length <=3 (all 584 per state in thorough) x optional template edit: documented change only, refusal without change when the precondition fails, pause -> Canary Paused, unpause -> Canary, validate promotes exactly the then-canary RS, fail -> rollback.",
+   T+"commands run through their run() bodies with an injected client (kubeconfig handling is not exercised).", "4/C19"),
+ "C20": ("exploration", "differential oracle over every metric family generator (verif shim) and BuildInfoLabels",
+   "12k (quick) / 120k (thorough) seeded objects: every gauge equals its status field; the label-info series equals the multiset {(sanitise(key), value)} incl. dotted/slashed/dashed, colliding and empty maps.",
+   T+"the sanitising rule is re-stated as [^a-zA-Z0-9_] -> _.", "4/C20"),
 }
 PENDING = {}
 
